@@ -26,7 +26,7 @@ CLAIMED = {
     note="Trusted: PyVC builtin models; token model of TRXC arguments (decimal literal <-> integer); send_msg used through its C13 contract; sender-side mute clause proved in C02.",
     design="9/C18"),
  "C02": dict(
-    technique="contract-based deductive verification: PyVC VCs from the live burst_fwd.py/transceiver.py/fake_trx.py; loop invariant over a peer list of symbolic length with symbolic-identity objects (Burstall heap), per-peer ghost call counter for an arbitrary transceiver q; callee contracts for get_*_freq, trans, handle_data_msg; z3",
+    technique="contract-based deductive verification: PyVC VCs from the live burst_fwd.py/transceiver.py/fake_trx.py; loop invariant over a peer list of symbolic length with symbolic-identity objects (Burstall heap), per-peer ghost call counter for an arbitrary transceiver q; callee contracts for get_*_freq, trans, handle_data_msg; the hopping generator's contract (HoppingParams.__init__/resolve, RNTABLE, fn2gsm_time - shared with C07) is discharged in this check too; z3",
     text="Unbounded proof: any number of pairwise-distinct peers (so 2..6 is covered), any power/tuning/hopping/mute state (frequencies are uninterpreted functions of (transceiver, FN)), any FN; exactly-one-copy-iff-in-deliver-set for an arbitrary q is the post-condition.",
     note="Trusted: PyVC builtin models; identity semantics of == on transceivers (checked on the live classes); handle_data_msg's frame; datagram emission itself is C10/C18/C13.",
     design="9/C02"),
